@@ -262,13 +262,17 @@ class Cluster:
 
         while True:
             if task not in self._clusters[c]['tasks']['running']:
-                # THIS CHECK DOESN"T WORK FIX IT SOMEHOW
-                if (machine not in self._clusters[c]['resources'][
-                    'available'] and (machine not in
-                        self._clusters[c]['resources'][
-                            'ingest'] and machine not in
-                        self.get_idle_resources(
-                            observation))):
+                # Ingest tasks run on machines already moved to the ingest
+                # pool; workflow tasks need a free machine or one reserved
+                # for their own observation.
+                if ingest:
+                    allowed = machine in self._clusters[c]['resources'][
+                        'ingest']
+                else:
+                    allowed = (machine in self._clusters[c]['resources'][
+                        'available'] or machine in self.get_idle_resources(
+                        observation))
+                if not allowed:
                     raise RuntimeError
                 if ingest:
                     # Ingest resources allocated separately from scheduler
